@@ -314,10 +314,13 @@ def write_builders(ctx, rule):
             pushed_new = any(x.k == "call" and x.a[0] == "batch::item::Item::new" for x in A.walk(pa[1]))
             into_data = A.tstr(pa[0]).endswith(".data") and _params(pa[0]) == {1}
             every = all(A.dominates(fn, push[0][0], rb) for rb in fn.return_blocks()) and not A.in_cycle(fn, push[0][0])
-            ok = kinds == {kind} and _params(a[0]) == {2} and _params(a[1]) == {3} and want_val and pushed_new and into_data and every
+            # nothing else touches the queue (a builder that pops / retains / clears rewrites earlier calls)
+            other = [A.cname(t).rsplit("::", 1)[-1] for b, t in fn.calls() if "Vec" in A.cname(t) and b != push[0][0] and
+                     A.cname(t).rsplit("::", 1)[-1] in ("pop", "clear", "truncate", "remove", "swap_remove", "retain", "retain_mut", "drain", "insert", "dedup", "dedup_by", "dedup_by_key", "split_off", "set_len")]
+            ok = kinds == {kind} and _params(a[0]) == {2} and _params(a[1]) == {3} and want_val and pushed_new and into_data and every and not other
             detail = ("queues Item(keyspace, key, %s, ValueType::%s) exactly once" % ("value" if has_value else "<empty>", kind)) if ok else \
-                "builds Item::new(%s) and pushes %s into %s (on every path: %s) — the batch would not do what `%s` says" % (
-                    ", ".join(A.tstr(x)[:40] for x in a), A.tstr(pa[1])[:60], A.tstr(pa[0])[:30], every, fid.rsplit("::", 1)[-1])
+                "builds Item::new(%s) and pushes %s into %s (on every path: %s; other queue mutations: %s) — the batch would not do what `%s` says" % (
+                    ", ".join(A.tstr(x)[:40] for x in a), A.tstr(pa[1])[:60], A.tstr(pa[0])[:30], every, other, fid.rsplit("::", 1)[-1])
         n += 1
         ctx.ob(rule, fn, "queues-one-item-of-its-own-kind", ok, detail)
     # Item::new keeps the four components apart
